@@ -1394,7 +1394,7 @@ Proof.
   destruct l as [|x l']; [congruence|].
   destruct (has_float (x :: l')); [reflexivity|].
   rewrite fits_need_sum. assert (need_sum (x :: l') <=? MAX_SIZE = true) as -> by lia.
-  rewrite strip_paren_wrap. rewrite app_nil_r in Hm. exact Hm.
+  rewrite strip_paren_wrap. rewrite app_nil_r in Hm. rewrite Hm. reflexivity.
 Qed.
 
 (* non-vacuity of call_roundtrip's hypotheses: f(-5, "hi", <unreadable>, NULL) *)
